@@ -66,6 +66,19 @@ def _capability_properties(model: Model, Q: RuleResult):
         for n in ast.walk(new.node):
             if isinstance(n, ast.Attribute) and isinstance(n.ctx, ast.Store) and n.attr.startswith("_is_") and n.attr.endswith("_implemented"):
                 set_in_new.add(n.attr)
+    # each flag is computed from the method it speaks for: cls._is_<x>_implemented = <check>("_<x>")
+    if new is not None:
+        for st in ast.walk(new.node):
+            if isinstance(st, ast.Assign) and len(st.targets) == 1 and isinstance(st.targets[0], ast.Attribute) and st.targets[0].attr.startswith("_is_") \
+                    and st.targets[0].attr.endswith("_implemented") and isinstance(st.value, ast.Call):
+                flag_ = st.targets[0].attr
+                names_ = [a.value for a in st.value.args if isinstance(a, ast.Constant) and isinstance(a.value, str)]
+                want_ = {"_is_gpn_implemented": "_getparamnames"}.get(flag_, "_" + flag_[len("_is_"):-len("_implemented")])
+                if names_ and names_ != [want_]:
+                    Q.bad(new, st, "the capability flag %s is computed from the method %s instead of `%s`: products are then dispatched to an implementation the "
+                          "operator does not have (or a present one is ignored)" % (flag_, names_, want_))
+                elif names_:
+                    Q.ok(new.fq, "%s is resolved from `%s`" % (flag_, want_))
     for priv, pub in OPTIONAL.items():
         prop = base.methods.get("is_%s_implemented" % pub)
         flag = "_is_%s_implemented" % pub
